@@ -77,9 +77,44 @@ def ranking_comparator(ctx):
 
 
 
+def has_xattr_probe(ctx):
+    """Fs::hasxattrAt answers 'is the attribute present' - whatever its value (also an empty one): true whenever fgetxattr succeeded,
+    false only for ENODATA / EOPNOTSUPP, an error otherwise."""
+    P = ctx.prog
+    f = ctx.fn1("Oomd::Fs::hasxattrAt")
+    ctx.use(f)
+    fl = Flow(P, f, cg=ctx.cg)
+    FAILK = re.compile(r"^\((-1 == (\w+)|(\w+) == -1|(\w+) < 0)\)$")
+    seen = set()
+    for r in returns(f):
+        t = ret_text(f, r)
+        g = fl.guards(r)
+        failed = any(p is True and FAILK.match(k) for k, p in g)
+        succeeded = any(p is False and FAILK.match(k) for k, p in g)
+        others = sorted(k for k, p in g if not FAILK.match(k))
+        if t.endswith("(true)") or t == "true":
+            seen.add("true")
+            ctx.check(succeeded and not others, "hasxattr:true-iff-present", "return_table", f.loc(r),
+                      "true is returned whenever fgetxattr succeeded", "true is returned under %s" % sorted(g, key=str))
+        elif t.endswith("(false)") or t == "false":
+            seen.add("false")
+            ctx.check(failed and any(p is True and ("== 61" in k or "61 ==" in k) for k, p in g), "hasxattr:false-only-when-absent", "return_table", f.loc(r),
+                      "false is returned only when fgetxattr failed with ENODATA / EOPNOTSUPP", "false is returned under %s" % sorted(g, key=str))
+        elif "systemError" in t or "SYSTEM_ERROR" in t:
+            seen.add("error")
+            ctx.check(failed, "hasxattr:error-only-on-failure", "return_table", f.loc(r), "an error is returned only when fgetxattr failed", "error returned under %s" % sorted(g, key=str))
+        else:
+            seen.add("other")
+            ctx.violation("hasxattr:true-iff-present", "return_table", f.loc(r),
+                          "hasxattrAt returns '%s': the answer depends on more than the presence of the attribute (e.g. its size), so a cgroup tagged with an "
+                          "empty value counts as untagged" % t[:60])
+    ctx.check({"true", "false", "error"} <= seen, "hasxattr:three-outcomes", "return_table", f.loc(), "present / absent / error are distinguished", "outcomes are %s" % sorted(seen))
+
+
 def kill_preference_reader(ctx):
     """prefer/avoid xattrs -> KillPreference (shared by C03 and C15)."""
     P = ctx.prog
+    has_xattr_probe(ctx)
     # ---- 4. readKillPreferenceAt: prefer probed before avoid, prefer wins
     rk = ctx.fn1("Oomd::Fs::readKillPreferenceAt")
     table_form = False
